@@ -217,3 +217,78 @@ func neutralisesLiteralText(p *core.Program, fn *ssa.Function, lit []string) (bo
 	}
 	return false, "no loop that tests for an <svg>/<math> ancestor"
 }
+
+// checkForeignUnwrapKeeps (C04-V7): the pass of S4 may put the children of an element it removes
+// in the element's place. That makes their text ordinary text of the page. It may do so only for
+// the two kinds whose text a browser shows (xmp, plaintext) and only if the element itself is
+// probably visible: noscript, iframe, noembed, noframes (and script, style) are never rendered,
+// the walk would have skipped them by name, so they go with their text.
+func checkForeignUnwrapKeeps(p *core.Program, r *core.Report, rule string) {
+	conv := mustFunc(p, r, rule, "(*"+converterPkg+".DomConverter).Convert")
+	if conv == nil {
+		return
+	}
+	const pre = "domutil.HasAncestor("
+	n, nKeep := 0, 0
+	var bad []string
+	for _, call := range core.Calls(conv, func(ci ssa.CallInstruction) bool {
+		f := core.Callee(ci)
+		return f != nil && len(f.Blocks) > 0 && f.Pkg != nil && core.IsModPkg(f.Pkg.Pkg.Path())
+	}) {
+		fn := p.Inlined(core.Callee(call))
+		hs := loopHeaders(fn)
+		for i := len(hs) - 1; i >= 0; i-- {
+			paths, atoms, err := core.EnumerateDecisions(p, fn, core.DecisionOpts{IterateAt: hs[i], Outcome: noOutcome,
+				Event: func(in ssa.Instruction, c *core.Canon) (string, bool) {
+					if ci, ok := in.(ssa.CallInstruction); ok && core.IsCallTo(in, "(*golang.org/x/net/html.Node).InsertBefore", "(*golang.org/x/net/html.Node).AppendChild", "github.com/go-shiori/dom.AppendChild", "github.com/go-shiori/dom.PrependChild") {
+						_ = ci
+						return "keep", true
+					}
+					return "", false
+				}})
+			if err != nil {
+				continue
+			}
+			test := ""
+			for a := range atoms {
+				if strings.HasPrefix(a, pre) && strings.Contains(a, `"svg"`) {
+					test = a
+				}
+			}
+			if test == "" {
+				continue
+			}
+			n++
+			j := strings.LastIndex(test, ",{")
+			elem := test[len(pre):j]
+			for _, pa := range paths {
+				kept := false
+				for _, ev := range pathEvents(pa) {
+					kept = kept || ev == "keep"
+				}
+				if !kept {
+					continue
+				}
+				nKeep++
+				shown, visible := false, false
+				for _, l := range pa.Lits {
+					if l.Val && (strings.HasSuffix(l.Atom, ` == "xmp"`) || strings.HasSuffix(l.Atom, ` == "plaintext"`) || strings.HasPrefix(l.Atom, `in(set‹"plaintext","xmp"›,`)) {
+						shown = true
+					}
+					if l.Val && l.Atom == "domutil.IsProbablyVisible("+elem+")" {
+						visible = true
+					}
+				}
+				if !shown || !visible {
+					bad = append(bad, shortVal(pa.String()))
+				}
+			}
+			break
+		}
+	}
+	if len(bad) > 2 {
+		bad = bad[:2]
+	}
+	r.Add(rule, "the foreign-content pass keeps the children only of a visible xmp/plaintext (never-rendered kinds go with their text)", p.Pos(conv.Pos()), n >= 1 && len(bad) == 0,
+		fmt.Sprintf("%d passes with an svg/math ancestor test, %d iteration paths keep children, %d of them for another kind or without the visibility test", n, nKeep, len(bad)), bad...)
+}
